@@ -125,6 +125,21 @@ func mkEvent(ts int64, ses, typ, pidTok, result string, nargs int) *aucoalesce.E
 	for i := 0; i < nargs; i++ {
 		e.Process.Args = append(e.Process.Args, "arg"+strconv.Itoa(i)+" "+t)
 	}
+	// the fields the correlator does not read vary from event to event (derived from the time stamp): code that starts
+	// to depend on one of them no longer behaves like the model
+	h := uint64(ts)*0x9E3779B97F4A7C15 + uint64(len(ses))
+	pick := func(xs ...string) string { h = h*6364136223846793005 + 1442695040888963407; return xs[(h>>33)%uint64(len(xs))] }
+	e.Process.Exe = pick("", "/usr/sbin/sshd", "/usr/sbin/sshd-session", "/usr/sbin/sshd (deleted)", "/usr/bin/sudo", "/bin/bash", "/usr/bin/su")
+	e.Process.Name = pick("", "sshd", "sudo", "bash", "cron")
+	e.Process.CWD = pick("", "/", "/root", "/home/u")
+	e.Process.PPID = pick("", "1", "4242", pidTok)
+	e.Process.Title = pick("", "sshd: u [priv]", "-bash")
+	e.Category = aucoalesce.AuditEventType(h >> 50 % 12)
+	e.Sequence = uint32(h >> 40)
+	e.Summary.Actor = aucoalesce.Actor{Primary: pick("", "root", "u", "unset"), Secondary: pick("", "root", "u")}
+	e.User.IDs = map[string]string{"auid": pick("1000", "unset", "0"), "uid": pick("0", "1000")}
+	e.Tags = []string{pick("", "operator-commands", "k")}
+	e.Data = map[string]string{"terminal": pick("ssh", "pts/0", "cron"), "op": pick("PAM:setcred", "login", "")}
 	return e
 }
 
